@@ -16,6 +16,7 @@ Oracle (independent structural walk of the decoded object - never
 Three-valued: PossDup / SequenceReset / raw mode *without* a carried number is
 unconstrained except that a refused encode must leave the counter untouched.
 """
+from mc import refs
 from mc.runner import HarnessError
 
 from props import c01_gen as gen
@@ -32,6 +33,9 @@ CLAUSES = {
     "compid_wrong": "the decoded header carries the session's CompIDs",
     "seqnum_wrong": "and exactly the sequence number that was allocated (or, for retransmissions and "
                     "SequenceReset, the number the message already carried)",
+    "wire_fields_wrong": "the bytes produced by the encoder carry the same body fields in the same order, each group "
+                         "as its count field followed by its items (cross-check of the frame with the independent "
+                         "parser R1, DESIGN.md C01 oracle)",
     "counter_wrong": "exactly the sequence number that was allocated: the session counter moves by one iff a "
                      "number was allocated",
 }
@@ -94,6 +98,20 @@ def first_diff(exp, got, path=""):
     return None
 
 
+def flatten(entries, out=None):
+    """Wire order of a body: plain fields as they come, a group as (tag, item count) followed by its items."""
+    if out is None:
+        out = []
+    for e in entries:
+        if isinstance(e[1], tuple):
+            out.append((e[0], str(len(e[1]))))
+            for it in e[1]:
+                flatten(it, out)
+        else:
+            out.append(e)
+    return out
+
+
 def expected_number(spec):
     t, tk, body, mode, ctr, num, pos = spec
     if mode in gen.ALLOC_MODES:
@@ -101,7 +119,7 @@ def expected_number(spec):
     return num, ctr
 
 
-def check_wire(spec, S, T, data, stats):
+def check_wire(spec, S, T, data, stats, one_byte_wire=True):
     """Decode one frame and judge it. Returns list of (clause, detail)."""
     t = spec[0]
     stats["decode_calls"] += 1
@@ -136,6 +154,16 @@ def check_wire(spec, S, T, data, stats):
     n, _ = expected_number(spec)
     if hdr.get("34") != str(n):
         fails.append(("seqnum_wrong", {"expected": str(n), "observed": repr(hdr.get("34"))}))
+    if one_byte_wire:
+        fields, reason = refs.try_parse(data)
+        if reason is None:  # framing itself is C02's business
+            stats["evaluations"] += 1
+            wire = [(tg, v.decode("latin-1")) for tg, v in fields if tg not in gen.FRAME_TAGS]
+            exp = flatten(exp_body)
+            if wire != exp:
+                k = next((i for i, (a, b) in enumerate(zip(wire, exp)) if a != b), min(len(wire), len(exp)))
+                fails.append(("wire_fields_wrong", {"first_difference_at_field": k,
+                                                    "expected": exp[k:k + 3], "on_the_wire": wire[k:k + 3]}))
     return fails
 
 
@@ -187,7 +215,7 @@ def evaluate(spec, S, T, stats):
             for c, d in check_wire(spec, S, T, l1, stats):
                 fails.append((c, "bytes", d))
         # ... and what the connection really writes
-        for c, d in check_wire(spec, S, T, data, stats):
+        for c, d in check_wire(spec, S, T, data, stats, one_byte_wire=False):
             d = dict(d)
             d["wire"] = "frame text converted with .encode('utf-8') as send_msg does"
             fails.append((c, "utf8_non_ascii", d))
